@@ -435,6 +435,12 @@ func C18(t *rapid.T) *world.Scenario {
 	if last := sc.Steps[len(sc.Steps)-1]; last.Op == "req" && Pct(t, "reqbody", 8) {
 		last.Req.BodyLen = Pick(t, "reqbodylen", 1, 5, 5000) // a GET may carry content; it is still a GET
 	}
+	if last := sc.Steps[len(sc.Steps)-1]; last.Op == "req" && Pct(t, "reqconn", 8) {
+		// hop-by-hop bookkeeping on the client's own request (a Connection field that names
+		// other request fields, as a proxy-style caller may leave it): the directive is still
+		// the client's instruction to this cache
+		last.Req.Header = append(last.Req.Header, H("Connection", Pick(t, "reqconnv", "Cache-Control", "cache-control", "keep-alive, Cache-Control", "close", "Pragma, Cache-Control")))
+	}
 	switch Weighted(t, "state", 60, 12, 10, 10, 8) {
 	case 1: // other variant only
 		for _, st := range sc.Steps[:1] {
@@ -558,6 +564,19 @@ func C13(t *rapid.T) *world.Scenario {
 		}
 		if fail.Kind == "resp" && fail.Status >= 400 && (place == 4 || Pct(t, lbl+"-esie", 20)) {
 			fail.Header = append(fail.Header, H("Cache-Control", "stale-if-error="+itoa(win)))
+		}
+		if fail.Kind == "resp" && fail.Status >= 400 && Pct(t, lbl+"-ehdr", 30) {
+			// what error replies of real origins and gateways carry besides the status
+			switch Weighted(t, lbl+"-ehdrk", 40, 20, 20, 20) {
+			case 0:
+				fail.Header = append(fail.Header, H("Retry-After", Pick(t, lbl+"-ra", "120", "0", "$T+60")))
+			case 1:
+				fail.Header = append(fail.Header, H("Connection", "close"), H("Content-Type", "text/html"))
+			case 2:
+				fail.Header = append(fail.Header, H("Retry-After", "5"), H("Etag", `"err$S"`), H("Vary", "Accept-Encoding"))
+			case 3:
+				fail.Header = append(fail.Header, H("Via", "1.1 gw"), H("Warning", `111 - "Revalidation Failed"`), H("Age", "7"))
+			}
 		}
 		rq.Cond = fail
 		sc.Steps = append(sc.Steps, ReqStep(rq))
